@@ -60,6 +60,8 @@ def main():
     shutil.copy(patch, os.path.join(dest, "patch.diff"))
     meta["coordinator_run"] = res
     json.dump(meta, open(os.path.join(dest, "meta.json"), "w"), indent=1)
+    if not res.get("patch_applies", True):
+        print(name, "PATCH DOES NOT APPLY to the current /repo HEAD - nothing was checked")
     print(name, "builds", res.get("builds"), "tests", res.get("package_tests"), "alarms", res["alarms"])
     for c in res["alarms"]:
         for l in res["checks"][c]["lines"]:
